@@ -92,10 +92,11 @@ def _same_view(a, b, except_idx=None):
     return True
 
 
-def class_component_step(ft: int, fr: int, fo: int, ti: int, inst_has: bool) -> bool:
+def class_component_step(ft: int, fr: int, fo: int, ti: int, inst_has: bool, oi: int = 0) -> bool:
     """
     pre: 0 <= ft < 4 and 0 <= fr < 4 and 0 <= fo < 4
     pre: 0 <= ti < 2
+    pre: 0 <= oi < hx.P.get('owners', 1)
     post: _
     """
     hx.begin()
@@ -126,7 +127,18 @@ def class_component_step(ft: int, fr: int, fo: int, ti: int, inst_has: bool) -> 
     before = _view(classes)
     has = T in own[ci]
     raised = None
-    new = T(cls, m)
+    # the component's `agent` back-reference is a free constructor argument: the class it is attached to (oi == 0, what the
+    # documentation does), any other class of the hierarchy (a factory building every component "for" the base class), an
+    # instance, or None - whatever it names, attaching concerns the target class only
+    if oi == 0:
+        owner = cls
+    elif oi == 7:
+        owner = None
+    elif oi == 8:
+        owner = inst
+    else:
+        owner = hx.pick(classes, oi - 1)
+    new = T(owner, m)
     try:
         if op == 'attach':
             cls.add_class_component(new)
@@ -376,7 +388,8 @@ def obligations(tier):
     enc = (_MetaAgent.__init__, _MetaAgent.add_class_component, _MetaAgent.remove_class_component,
            _MetaAgent.get_class_component, _MetaAgent.has_class_component, _MetaAgent.__len__, Agent.__init__)
     return [
-        X("class_component_step", class_component_step, parts=[{"op": o, "ci": c} for o in ("attach", "detach") for c in range(6)],
+        X("class_component_step", class_component_step, parts=[{"op": o, "ci": c} for o in ("attach", "detach") for c in range(6)] +
+          [{"op": "attach", "ci": c, "owners": 9} for c in ((2,) if tier == "quick" else (0, 2, 4))],
           labels=("applied", "duplicate_rejected", "absent_rejected"),
           labels_for=lambda p: ("applied", "duplicate_rejected") if p["op"] == "attach" else ("applied", "absent_rejected"),
           timeout=900, encoded=enc),
